@@ -1,6 +1,7 @@
 (* Property C08 - genotype -> allele-count classification is total and exact. Statements + exact + Print Assumptions. *)
-From Sfs Require Import Index ArrayM Scalar Spectrum Project Create SampleParse IndexP ArrayP BinomP ProjectP CreateP CreateSpecP SampleParseP.
+From Sfs Require Import Index ArrayM Scalar Spectrum Project Create SampleParse Npy Text Container IndexP ArrayP BinomP ProjectP CreateP CreateSpecP SampleParseP ContainerP.
 From Coq Require Import Permutation.
+Close Scope string_scope.
 
 Close Scope Qc_scope. Close Scope Q_scope. Open Scope nat_scope.
 
@@ -18,13 +19,13 @@ Print Assumptions C08_multiallelic_iff.
 
 (* missing exactly when the field or either allele is '.' *)
 Theorem C08_missing_iff : forall g,
-  classify g = GMissing <-> g = None \/ exists a b, g = Some [a; b] /\ (a = None \/ b = None).
+  classify g = GMissing <-> g = None \/ g = Some [None] \/ exists a b, g = Some [a; b] /\ (a = None \/ b = None).
 Proof. exact (@classify_missing_iff). Qed.
 Print Assumptions C08_missing_iff.
 
 (* any other ploidy is an error value *)
 Theorem C08_ploidy_iff : forall g,
-  classify g = GPloidyErr <-> exists l, g = Some l /\ length l <> 2.
+  classify g = GPloidyErr <-> exists l, g = Some l /\ length l <> 2 /\ l <> [None].
 Proof. exact (@classify_ploidy_iff). Qed.
 Print Assumptions C08_ploidy_iff.
 
@@ -59,6 +60,74 @@ Theorem C08_unselected_irrelevant : forall m cols pto st gs gs',
   snd (read_site m cols pto st gs) = snd (read_site m cols pto st gs').
 Proof. exact (@read_site_unselected_irrelevant). Qed.
 Print Assumptions C08_unselected_irrelevant.
+
+(* VCF text path: the GT text of a sample decodes to exactly its alleles (noodles' GT parser written out), whatever the separators *)
+Open Scope N_scope.
+Theorem C08_vcf_text_path : forall (g : agt),
+  g <> [] -> int8_ok g = true -> map fst g <> [None] -> vcf_field_gt (render_gt g) = Some (Some (map fst g)).
+Proof. exact (@vcf_field_render). Qed.
+Print Assumptions C08_vcf_text_path.
+Close Scope N_scope.
+
+(* ... and the missing value '.' is 'no genotype' *)
+Open Scope N_scope.
+Theorem C08_vcf_missing_field : forall (g : agt),
+  map fst g = [None] -> vcf_field_gt (render_gt g) = Some None.
+Proof. exact (@vcf_field_render_missing). Qed.
+Print Assumptions C08_vcf_missing_field.
+Close Scope N_scope.
+
+(* BCF binary path: the int8 vector htslib writes for a genotype (any padding width) decodes to exactly its alleles *)
+Open Scope N_scope.
+Theorem C08_bcf_binary_path : forall (g : agt) (w : nat),
+  g <> [] -> int8_ok g = true -> (length g <= w)%nat -> bcf_field_gt (hts_encode g w) = Some (Some (map fst g)).
+Proof. exact (@bcf_field_hts). Qed.
+Print Assumptions C08_bcf_binary_path.
+Close Scope N_scope.
+
+(* both paths give the classification of the alleles: the VCF text path and the BCF binary path agree on every genotype *)
+Open Scope N_scope.
+Theorem C08_both_paths_classify_alike : forall (g : agt) (w : nat),
+  g <> [] -> int8_ok g = true -> (length g <= w)%nat ->
+  classify_field (vcf_field_gt (render_gt g)) = Some (classify (Some (map fst g))) /\
+  classify_field (bcf_field_gt (hts_encode g w)) = Some (classify (Some (map fst g))).
+Proof. exact (@gt_container_independent). Qed.
+Print Assumptions C08_both_paths_classify_alike.
+Close Scope N_scope.
+
+(* regardless of phasing, in both paths *)
+Open Scope N_scope.
+Theorem C08_phasing_irrelevant : forall (g g' : agt) (w w' : nat),
+  g <> [] -> int8_ok g = true -> map fst g = map fst g' -> (length g <= w)%nat -> (length g' <= w')%nat ->
+  classify_field (vcf_field_gt (render_gt g)) = classify_field (vcf_field_gt (render_gt g')) /\
+  classify_field (bcf_field_gt (hts_encode g w)) = classify_field (bcf_field_gt (hts_encode g' w')).
+Proof. exact (@gt_phasing_irrelevant). Qed.
+Print Assumptions C08_phasing_irrelevant.
+Close Scope N_scope.
+
+(* refutation kept on record (F16): before the repair the missing field was a ploidy error in BCF and missing in VCF *)
+Open Scope N_scope.
+Theorem C08_bcf_missing_field_was_ploidy_error : exists (g : agt) (w : nat), g <> [] /\ int8_ok g = true /\ (length g <= w)%nat /\
+    option_map classify_v0 (vcf_field_gt (render_gt g)) <> option_map classify_v0 (bcf_field_gt (hts_encode g w)).
+Proof. exact (@gt_container_v0_refuted). Qed.
+Print Assumptions C08_bcf_missing_field_was_ploidy_error.
+Close Scope N_scope.
+
+(* a BCF vector with no allele before the end-of-vector value is a record error *)
+Open Scope N_scope.
+Theorem C08_bcf_empty_vector_is_error : forall (w : nat),
+  bcf_field_gt (repeat eov w) = None.
+Proof. exact (@bcf_field_empty). Qed.
+Print Assumptions C08_bcf_empty_vector_is_error.
+Close Scope N_scope.
+
+(* ... and so is a negative int8 value *)
+Open Scope N_scope.
+Theorem C08_bcf_negative_is_error : forall (v : N) (t : bytes),
+  128 <= v -> v <> eov -> bcf_field_gt (v :: t) = None.
+Proof. exact (@bcf_field_negative). Qed.
+Print Assumptions C08_bcf_negative_is_error.
+Close Scope N_scope.
 
 (* totality and non-vacuity: every decoded GT falls in exactly one class; 0/2 is multiallelic *)
 Example C08_examples :
